@@ -12,7 +12,7 @@ CONSTANTS
   PeriodicFix = TRUE
   EnqAnywhere = FALSE
   Record = TRUE
-  MaxPre = 1
+  MaxPre = 0
 INVARIANTS TypeOK OnlyLegalRemovals PostInOrderH FirstAcceptInOrderH WaitFollowsRule PurgeOnlyOld
 
 CHECK_DEADLOCK FALSE
